@@ -503,12 +503,13 @@ theorem Inv.handleBeh {s : State} {cmd : BCmd} {rest : List BCmd} (h : Inv s) (h
   cases cmd with
   | one c n =>
     refine h.congrU rfl rfl rfl ?_ rfl rfl ?_
-    · simp [handleBeh, State.U, hp, hq, pendNums, BCmd.nums]
-    · intro p hp'; simp only [handleBeh, Option.some.injEq] at hp'; subst hp'; simp [pendOK]
+    · simp [C07.handleBeh, State.U, hp, hq, pendNums, BCmd.nums]
+    · intro p hp'; simp only [C07.handleBeh, Option.some.injEq] at hp'; subst hp'; simp [pendOK]
   | any p n ch =>
     refine h.congrU rfl rfl rfl ?_ rfl rfl ?_
-    · simp [handleBeh, State.U, hp, hq, pendNums, BCmd.nums]
-    · intro p' hp'; simp only [handleBeh, Option.some.injEq] at hp'; subst hp'; simp [pendOK]
+    · simp [C07.handleBeh, State.U, hp, hq, pendNums, BCmd.nums]
+    · intro p' hp'; simp only [C07.handleBeh, Option.some.injEq] at hp'; subst hp'
+      simp only [pendOK]; exact ⟨_, rfl, fun _ hid => hid⟩
   | closeOne c =>
     have h1 : Inv { s with behQ := rest } :=
       h.congrU rfl rfl rfl (by simp [State.U, hq, BCmd.nums]) rfl rfl (by intro p hp'; exact h.pend p hp')
@@ -518,7 +519,7 @@ theorem Inv.handleBeh {s : State} {cmd : BCmd} {rest : List BCmd} (h : Inv s) (h
       h.congrU rfl rfl rfl (by simp [State.U, hq, BCmd.nums]) rfl rfl (by intro p hp'; exact h.pend p hp')
     exact h1.disconnect p
   | gen =>
-    exact h.congrU rfl rfl rfl (by simp [handleBeh, State.U, hq, BCmd.nums]) rfl rfl
+    exact h.congrU rfl rfl rfl (by simp [C07.handleBeh, State.U, hq, BCmd.nums]) rfl rfl
       (by intro p hp'; exact h.pend p hp')
 
 theorem runAll_spec {U : List Nat} {nx : Nat} (cs : List Conn) (h : ∀ k ∈ cs, CI U nx k) :
@@ -539,12 +540,11 @@ theorem runAll_spec {U : List Nat} {nx : Nat} (cs : List Conn) (h : ∀ k ∈ cs
 
 theorem Inv.advanceLocal {s : State} (h : Inv s) : Inv (advanceLocal s) := by
   obtain ⟨h1, h2⟩ := runAll_spec s.conns (fun k hk => h.conns k (List.mem_append_left _ hk))
-  have e : advanceLocal s = { s with dialing := [],
-      pendQ := s.pendQ ++ s.dialing.map (fun d => (⟨d.id, d.peer, !d.aborted⟩ : PendMsg)),
-      conns := (runAll s.conns).1, log := s.log ++ (runAll s.conns).2.1 } := by
-    unfold C07.advanceLocal
-    simp only [h2, dropAll]
-  rw [e]
+  rcases hr : runAll s.conns with ⟨cs, lg, dr⟩
+  rw [hr] at h1 h2
+  simp only at h1 h2
+  subst h2
+  simp only [C07.advanceLocal, hr, dropAll]
   refine h.same rfl rfl rfl rfl rfl ?_
   intro k hk
   rcases List.mem_append.1 hk with hk | hk
@@ -555,28 +555,35 @@ theorem CI.fresh (U : List Nat) (nx id peer : Nat) : CI U nx ({ id := id, peer :
   ⟨by simp [Conn.seq, Cmd.notes], by simp [Conn.seq, Cmd.notes], by simp [Conn.seq, Cmd.notes],
     by simp, trivial⟩
 
-theorem Inv.poolPoll {s : State} (h : Inv s) (pick : Option Nat) : Inv (poolPoll s pick).1 := by
-  unfold C07.poolPoll
-  simp only
+theorem Inv.reportClosed {s : State} (h : Inv s) (c : Nat) (bad : Bool) : Inv (reportClosed s c bad).1 := by
+  refine h.same rfl rfl rfl rfl rfl ?_
+  intro k hk
+  rcases List.mem_append.1 hk with hk | hk
+  · exact h.conns k (List.mem_append_left _ (mem_eraseConn hk))
+  · rcases List.mem_append.1 hk with hk | hk
+    · exact h.conns k (List.mem_append_right _ hk)
+    · simp only [Option.mem_toList] at hk
+      exact h.conns k (List.mem_append_left _ (findConn_mem hk).1)
+
+theorem Inv.reportPending {s : State} (h : Inv s) (m : PendMsg) (bad : Bool) :
+    Inv (reportPending s m bad).1 := by
+  unfold C07.reportPending
   split
   · refine h.same rfl rfl rfl rfl rfl ?_
     intro k hk
     rcases List.mem_append.1 hk with hk | hk
-    · exact h.conns k (List.mem_append_left _ (mem_eraseConn hk))
     · rcases List.mem_append.1 hk with hk | hk
-      · exact h.conns k (List.mem_append_right _ hk)
-      · simp only [Option.mem_toList, Option.mem_def] at hk
-        exact h.conns k (List.mem_append_left _ (findConn_mem hk).1)
+      · exact h.conns k (List.mem_append_left _ hk)
+      · simp only [List.mem_singleton] at hk; subst hk; exact CI.fresh _ _ _ _
+    · exact h.conns k (List.mem_append_right _ hk)
+  · exact h.same rfl rfl rfl rfl rfl h.conns
+
+theorem Inv.poolPoll {s : State} (h : Inv s) (pick : Option Nat) : Inv (poolPoll s pick).1 := by
+  unfold C07.poolPoll
+  split
+  · exact h.reportClosed _ _
   · split
-    · split
-      · refine h.same rfl rfl rfl rfl rfl ?_
-        intro k hk
-        rcases List.mem_append.1 hk with hk | hk
-        · rcases List.mem_append.1 hk with hk | hk
-          · exact h.conns k (List.mem_append_left _ hk)
-          · simp only [List.mem_singleton] at hk; subst hk; exact CI.fresh _ _ _ _
-        · exact h.conns k (List.mem_append_right _ hk)
-      · exact h.same rfl rfl rfl rfl rfl h.conns
+    · exact h.reportPending _ _
     · exact h.advanceLocal
 
 theorem Inv.poolPart {s : State} (h : Inv s) (pick : Option Nat) : Inv (poolPart s pick).1 := by
@@ -618,7 +625,9 @@ theorem Inv.step {s : State} (h : Inv s) (op : Op) : Inv (step s op).1 := by
   | emit cmds => exact h.pushCmds cmds
   | poll pick =>
     have h0 : Inv { s with bad := false } := h.same rfl rfl rfl rfl rfl h.conns
-    exact Inv.pollLoop _ h0 pick
+    have := Inv.pollLoop (pollFuel s) h0 pick
+    simp only [C07.step]
+    exact this
 
 theorem Inv.init (n : Nat) : Inv (State.init n) :=
   ⟨rfl, by simp [State.init], by simp [State.init, State.U, pendNums, BCmd.nums],
